@@ -196,9 +196,10 @@ PROPERTIES["C01"] = {
     "level_text": "bounded symbolic verification of the truthfulness clause: for every line-search solver, every function (oracle), every start, every epsilon in (0,0.1] and EVERY behaviour of the line-search (replaced by an arbitrary move + arbitrary verdict), a `converged` status implies the independently recomputed gradient criterion at the returned point; all paths of the real outer loops within max_evals=10 are explored",
     "level_note": SRE_NOTE + "; lsearch_t::get replaced by an over-approximating stub (state updated at arbitrary fresh points, arbitrary boolean returned)",
     "technique": SRE_TECH,
-    "explanation": "C01 (second sentence): real solver_t::minimize -> do_minimize of the 17 line-search solvers on an oracle function; `converged` => max|g_i| < eps*max(1,|f|) recomputed from the oracle's log at the returned point; reported value/gradient are the oracle's answers there.",
+    "explanation": "C01 (second sentence): real solver_t::minimize -> do_minimize of the 17 line-search solvers on an oracle function; `converged` => max|g_i| < eps*max(1,|f|) recomputed from the oracle's log at the returned point; reported value/gradient are the oracle's answers there. Unit C01_dir (per-iteration ingredient of the first sentence): the direction each L-BFGS / BFGS / DFP / Hoshino / CG iteration hands to the line-search equals the textbook definition (explicit inverse-Hessian matrices built from the kept curvature pairs, documented betas, restart rules) for every sequence of iterates and gradients within the bounds.",
     "assumptions": SRE_ASSUME + ["oracle function (fresh symbolic value/gradient per evaluation, functionally consistent)", "line-search = arbitrary move stub (lsevals evaluations per call)"],
-    "bounds": {"dims": "1..2", "max_evals": "10 (domain minimum) => <= 4 outer iterations", "epsilon": "(0, 0.1)"},
+    "bounds": {"dims": "1..2", "max_evals": "10 (domain minimum) => <= 4 outer iterations (14 in one thorough configuration)", "epsilon": "(0, 0.1)",
+               "direction unit": "d <= 2; configurations with prex/preg pin the first iterates / gradient answers to fixed rationals (symbols constrained by equalities, exact arithmetic) so that histories of 2-4 curvature pairs stay decidable; cgd-n and the sr1/fletcher updates are not compared"},
     "outside": ["first sentence of C01: convergence of L-BFGS/BFGS within 1500 evaluations and the distance bound on all well-conditioned quadratics (needs hundreds of floating-point iterations; not decidable by bounded symbolic execution over the reals)"],
     "units": [
         {"engine": "sre", "harness": "C01_solver", "sources": ["C01_solver.cpp"],
@@ -206,6 +207,18 @@ PROPERTIES["C01"] = {
          "thorough": ["solver=%s;d=%d;lsevals=%d" % (s, d, k) for s in _LS_SOLVERS for (d, k) in ((1, 1), (2, 2), (1, 2))] +
                      ["solver=%s;d=1;inf=%d" % (s, i) for s in ("gd", "cgd-pr", "lbfgs", "bfgs") for i in (1, 2)] + ["solver=lbfgs;d=1;hist=1", "solver=lbfgs;d=2;evals=14;lsevals=2"],
          "budget": {"quick": {"deadline_s": 60, "max_paths": 5000}, "thorough": {"deadline_s": 600, "max_paths": 200000}},
+         "encoded": _SOLVER_ENC},
+        # search directions (per-iteration ingredient of the convergence clause): for ANY sequence of iterates and gradients the
+        # direction handed to the line-search equals its textbook definition (explicit BFGS/DFP/Hoshino matrices, CG betas, restarts)
+        {"engine": "sre", "harness": "C01_dir", "sources": ["C01_solver.cpp"],
+         "quick": ["solver=lbfgs;d=2;lsevals=1;dir=1;prex=3;preg=3", "solver=lbfgs;d=2;lsevals=1;dir=1;prex=3;preg=3;hist=2", "solver=lbfgs;d=1;lsevals=1;dir=1",
+                   "solver=bfgs;d=2;lsevals=1;dir=1;qinit=1", "solver=dfp;d=2;lsevals=1;dir=1;prex=2;preg=2;qinit=1", "solver=bfgs;d=2;lsevals=1;dir=1;prex=2;preg=2",
+                   "solver=cgd-fr;d=2;lsevals=1;dir=1", "solver=cgd-dy;d=2;lsevals=1;dir=1", "solver=cgd-hs;d=2;lsevals=1;dir=1", "solver=cgd-dycd;d=2;lsevals=1;dir=1"],
+         "thorough": ["solver=lbfgs;d=2;lsevals=1;dir=1" + x for x in ("", ";hist=1", ";prex=2;preg=2", ";prex=3;preg=3", ";prex=3;preg=3;hist=2", ";prex=3;preg=3;hist=1", ";prex=4;preg=4;evals=14")] +
+                     ["solver=lbfgs;d=1;lsevals=%d;dir=1" % k for k in (1, 2)] +
+                     ["solver=%s;d=2;lsevals=1;dir=1%s" % (sv, x) for sv in ("bfgs", "dfp", "hoshino") for x in ("", ";qinit=1", ";prex=2;preg=2", ";prex=2;preg=2;qinit=1", ";prex=3;preg=3")] +
+                     ["solver=cgd-%s;d=%d;lsevals=%d;dir=1" % (sv, d, k) for sv in ("hs", "fr", "pr", "cd", "ls", "dy", "dyhs", "dycd", "frpr") for (d, k) in ((2, 1), (1, 2))],
+         "budget": {"quick": {"deadline_s": 30, "max_paths": 3000, "query_s": 5}, "thorough": {"deadline_s": 300, "max_paths": 100000, "query_s": 20}},
          "encoded": _SOLVER_ENC},
     ],
 }
